@@ -48,11 +48,12 @@ type C11Mon struct {
 	withdrawn map[string]*big.Int
 	penalty   map[string]*big.Int
 	unstakes  map[string][]unstakeRec
+	lag       map[string]int // validator -> consecutive blocks in which its own record disagreed with the delegation records
 	init      bool
 }
 
 func NewC11() *C11Mon {
-	return &C11Mon{staked: map[string]*big.Int{}, withdrawn: map[string]*big.Int{}, penalty: map[string]*big.Int{}, unstakes: map[string][]unstakeRec{}}
+	return &C11Mon{staked: map[string]*big.Int{}, withdrawn: map[string]*big.Int{}, penalty: map[string]*big.Int{}, unstakes: map[string][]unstakeRec{}, lag: map[string]int{}}
 }
 
 func addTo(m map[string]*big.Int, k string, v *big.Int) {
@@ -161,10 +162,25 @@ func (m *C11Mon) OnBlock(blk *hist.Block) []Finding {
 		}
 	}
 	sort.Strings(vs)
+	recs := Validators(blk.Cur)
 	for _, v := range vs {
 		tot := amountAt(blk.Cur, "st__t_"+v)
 		if tot.Cmp(get(sum, v)) != 0 {
 			out = append(out, Finding{"C11", "C11/total-vs-delegators", fmt.Sprintf("block %d: validator %s has recorded stake %s, the sum of its delegators' locked amounts is %s", blk.H, v, tot, get(sum, v))})
+		}
+		// the validator record itself (the stake that becomes its voting power) follows: a verdict cuts the
+		// delegation records at the block end and the validator record at a following block begin (the cut
+		// is retried every block while the validator's removal from the set is within its two-block guard),
+		// so a difference may last a few blocks, never six
+		if r := recs[v]; r != nil {
+			if big.NewInt(r.Power).Cmp(get(sum, v)) != 0 {
+				m.lag[v]++
+				if m.lag[v] >= 6 {
+					out = append(out, Finding{"C11", "C11/validator-record-vs-delegators", fmt.Sprintf("block %d: validator %s's own record carries stake %d, the sum of its delegators' locked amounts has been %s for six blocks", blk.H, v, r.Power, get(sum, v))})
+				}
+			} else {
+				m.lag[v] = 0
+			}
 		}
 	}
 	return out
